@@ -253,8 +253,12 @@ pub fn judge(case: &Case, obs: &Obs) -> (Vec<Violation>, BTreeMap<String, u64>, 
             }
         }
     }
+    // family noisy-neighbour: the first caller's file meets a hard fault (its run may fail, its file may hold a
+    // cut record); the second caller is judged as strictly as ever
+    let noisy = case.family == "noisy-neighbour";
+    let hard_fired: u64 = obs.stats.faults.iter().filter(|(k, _)| *k == "eio_write" || k.starts_with("enospc") || *k == "zero_write").map(|(_, n)| *n).sum();
     let mut file_records: Option<Vec<Value>> = None;
-    if let Some(data) = &obs.out_file {
+    if let (Some(data), false) = (&obs.out_file, noisy) {
         match parse_json_lines(data) {
             Ok(recs) => file_records = Some(recs),
             Err(e) => v.push(Violation { class: "file-corrupt".into(), detail: e }),
@@ -273,6 +277,10 @@ pub fn judge(case: &Case, obs: &Obs) -> (Vec<Violation>, BTreeMap<String, u64>, 
         let lb_err = lb.get(bi).map_or(false, |l| l.get("error").is_some());
         let run = match obs.runs.get(bi) {
             Some(Some(Ok(r))) => r.clone(),
+            Some(Some(Err(_))) if noisy && bi == 0 && hard_fired > 0 => {
+                bump("neighbour_run_failed_on_its_file", 1);
+                continue;
+            }
             Some(Some(Err(e))) => {
                 if lb_err {
                     bump("whole_run_error_from_lb", 1);
@@ -335,6 +343,9 @@ pub fn judge(case: &Case, obs: &Obs) -> (Vec<Violation>, BTreeMap<String, u64>, 
             expected = returned_expected;
         }
         nontrivial |= expected.len() + expected_search_stage.len() > 1;
+        if noisy && bi == 1 {
+            bump("callers_judged_beside_a_failing_neighbour", 1);
+        }
         bump("queries", batch.len() as u64);
         bump("responses", actual.len() as u64);
         for r in &actual {
@@ -374,7 +385,7 @@ impl Check for C06 {
         "C06"
     }
     fn families(&self, _tier: Tier) -> Vec<&'static str> {
-        vec!["schedule", "schedule", "faults", "schedule", "energy", "schedule", "faults", "cli", "schedule", "sink-faults", "schedule"]
+        vec!["schedule", "schedule", "faults", "schedule", "energy", "schedule", "faults", "cli", "schedule", "sink-faults", "noisy-neighbour"]
     }
     fn default_runs(&self, tier: Tier) -> u64 {
         match tier {
@@ -399,6 +410,32 @@ impl Check for C06 {
             let mut c = super::c19::C19.gen(seed ^ 0xC06, if seed % 2 == 0 { "cli-hard" } else { "cli" }, tier);
             c.check = "C06".into();
             c.family = "cli".into();
+            return c;
+        }
+        if family == "noisy-neighbour" {
+            // two caller threads share the application. The first writes its responses to a file whose disk fills
+            // up (or breaks) and stays that way - its run() may fail; the second writes no file and must get every
+            // one of its responses, each equal to the query run alone: "a query that fails ... without changing
+            // any other response" across callers (round 6)
+            let mut c = gen_batch_case("C06", seed, "schedule", tier, true);
+            c.family = family.to_string();
+            let mut r = Rng::new(seed ^ fnv64("noisy-neighbour"));
+            let mut all: Vec<Value> = c.batches.iter().flatten().cloned().collect();
+            if all.len() < 2 {
+                let q = all[0].clone();
+                all.push(q);
+            }
+            let k = r.range(1, all.len() as u64 - 1) as usize;
+            c.batches = vec![all[..k].to_vec(), all[k..].to_vec()];
+            c.world.persist = true;
+            c.world.out2 = None;
+            c.world.policies_at_run_level = false;
+            c.world.per_run_sinks = Some(vec![1, 0]);
+            c.simcfg.faults = crate::sim::F_SHORT_WRITE | *r.pick(&[crate::sim::F_ENOSPC_WRITE, crate::sim::F_EIO_WRITE, crate::sim::F_ZERO_WRITE]);
+            c.simcfg.io_fault_rate = *r.pick(&[0.2, 0.5, 0.9]);
+            c.simcfg.max_hard_faults = 1;
+            c.simcfg.fault_paths = vec!["/sim/out".into()];
+            c.params = json!({"two_callers": true});
             return c;
         }
         gen_batch_case("C06", seed, family, tier, false)
